@@ -496,6 +496,17 @@ void drv_apply(const char* op)
     }
     ev_begin("check"); j_int("c", c); j_int("sb", (long long)cl[c]->getSendBufferSize()); j_bool("drained", 1); j_end();
   }
+  else if(!strcmp(op, "clear"))
+  {
+    // Server::clear(): everything registered is dropped at once (top level only); the server is used again afterwards
+    srv->clear();
+    for(int c = 1; c <= NC; ++c) { cl[c] = 0; clfd[c] = -1; palias[c] = 0; }
+    for(int t = 1; t <= NT; ++t) tm[t] = 0;
+    for(int l = 1; l <= NLS; ++l) { lst[l] = 0; lstfd[l] = -1; }
+    for(int e = 1; e <= NES; ++e) { est[e] = 0; estfd[e] = -1; }
+    cbqn = 0;
+    ev_begin("clear"); j_end();
+  }
   else if(!strcmp(op, "pclose"))
   {
     int c = (int)tok_int();
